@@ -671,6 +671,7 @@ class Join(Origin):
         kind: typing.Union['dsl.Join.Kind', str],
         condition: typing.Optional['dsl.Predicate'] = None,
     ):
+        kind = cls.Kind(kind)
         if (kind is cls.Kind.CROSS) ^ (condition is None):
             raise _exception.GrammarError('Illegal use of condition and join type')
         if condition is not None:
